@@ -1179,3 +1179,59 @@ func hdrArgOf(c *ssa.Call) int {
 	}
 	return 0
 }
+
+// callErrorReturned: the error result of this call is tested right after it and, when non-nil, returned unchanged by the
+// enclosing function (or the call is itself the returned value).
+func callErrorReturned(c *ssa.Call) bool {
+	b := c.Block()
+	nres := c.Call.Signature().Results().Len()
+	isErr := func(v ssa.Value) bool {
+		if v == ssa.Value(c) && nres == 1 {
+			return true
+		}
+		if ex, ok := v.(*ssa.Extract); ok && ex.Tuple == ssa.Value(c) && ex.Index == nres-1 {
+			return true
+		}
+		return false
+	}
+	switch last := b.Instrs[len(b.Instrs)-1].(type) {
+	case *ssa.Return:
+		for _, rv := range last.Results {
+			if isErr(rv) {
+				return true
+			}
+		}
+	case *ssa.If:
+		bo, ok := last.Cond.(*ssa.BinOp)
+		if !ok {
+			return false
+		}
+		var ev ssa.Value
+		isNil := func(v ssa.Value) bool { k, ok := v.(*ssa.Const); return ok && k.Value == nil }
+		switch {
+		case isNil(bo.X) && isErr(bo.Y):
+			ev = bo.Y
+		case isNil(bo.Y) && isErr(bo.X):
+			ev = bo.X
+		default:
+			return false
+		}
+		var failing *ssa.BasicBlock
+		switch bo.Op {
+		case token.NEQ:
+			failing = b.Succs[0]
+		case token.EQL:
+			failing = b.Succs[1]
+		default:
+			return false
+		}
+		if ret, ok := failing.Instrs[len(failing.Instrs)-1].(*ssa.Return); ok {
+			for _, rv := range ret.Results {
+				if rv == ev {
+					return true
+				}
+			}
+		}
+	}
+	return false
+}
